@@ -401,6 +401,22 @@ func (e *emitter) c02Text(s *source, rel, goName, lean string, pick c02Pick) {
 	e.printf("/-- source text in `%s`, %s -/\ndef %s : String := %s\n\n", goName, rel, lean, leanString(s.src(ex)))
 }
 
+// textOpt is textDef for a statement that may legitimately be absent (emits "" then): used for a guard that
+// exists only in the patched form of a function.
+func (e *emitter) c02TextOpt(s *source, rel, goName, lean string, pick c02Pick) {
+	fd := s.findFunc(rel, goName)
+	if fd == nil {
+		e.errors = append(e.errors, fmt.Sprintf("%s: function %s not found in %s", lean, goName, rel))
+		e.printf("def %s : String := \"MISSING\"\n\n", lean)
+		return
+	}
+	txt := ""
+	if ex, ok := pick(s, fd); ok {
+		txt = s.src(ex)
+	}
+	e.printf("/-- source text in `%s`, %s (empty: no such statement) -/\ndef %s : String := %s\n\n", goName, rel, lean, leanString(txt))
+}
+
 // funcLitOfVar wraps the function literal bound to a package variable as a FuncDecl.
 func c02VarFunc(s *source, rel, name string) *ast.FuncDecl {
 	f := s.file(rel)
@@ -492,6 +508,9 @@ func init() {
 		e.c02Text(s, f, "adaptiveShedder.minRt", "minRtAssign", pickAssign("result", 1))
 		e.c02Expr(s, f, "adaptiveShedder.overloadFactor", "factorRawExpr", "Rat", pickAssign("factor", 0))
 		e.c02Expr(s, f, "adaptiveShedder.overloadFactor", "factorExpr", "Rat", pickReturn(0))
+		e.c02TextOpt(s, f, "adaptiveShedder.overloadFactor", "factorNanGuard", pickIf(0))
+		e.c02TextOpt(s, f, "adaptiveShedder.overloadFactor", "factorNanValue", pickAssign("factor", 1))
+		e.c02ShapeKeep(s, f, "adaptiveShedder.overloadFactor", "overloadFactorShape", "stat.CpuUsage", "math.IsNaN", "mathx.Between")
 		e.c02Expr(s, f, "adaptiveShedder.stillHot", "stillHotWithin", "BoolInt", pickIf(2))
 		e.c02Expr(s, f, "adaptiveShedder.stillHot", "stillHotUnset", "BoolInt", pickIf(1))
 		e.c02Expr(s, f, "promise.Pass", "passRtExpr", "Rat", pickAssign("rt", 0))
